@@ -107,15 +107,22 @@ class CanvasCache:
             depends = []
             for _x, _y, c, _pos in canv.children:
                 if c.widget_info:
-                    depends.append(c.widget_info[0])
+                    depends.append(c)
                 elif hasattr(c, "children"):
                     depends.extend(walk_depends(c))
             return depends
 
+        used = walk_depends(canvas) if hasattr(canvas, "children") else []
+        for c in used:
+            # built from a canvas that is not in the cache (its widget may have others that are): nothing
+            # would invalidate this one when something shown only by that uncached canvas changes
+            if not any(ref() is c for ref in cls._widgets.get(c.widget_info[0], {}).values()):
+                return
+
         # use explicit depends_on if available from the canvas
         depends_on = getattr(canvas, "depends_on", None)
-        if depends_on is None and hasattr(canvas, "children"):
-            depends_on = walk_depends(canvas)
+        if depends_on is None:
+            depends_on = [c.widget_info[0] for c in used]
         if depends_on:
             for w in depends_on:
                 if w not in cls._widgets:
